@@ -2212,6 +2212,60 @@ def lower_partials(fi: FuncInfo) -> FuncInfo:
     return FuncInfo(fi.module, fi.qual, node, fi.cls)
 
 
+def canon_compare_text(e: ast.expr) -> str:
+    """Text of a two-operand comparison written with `<` / `<=` (`a >= b` reads `b <= a`); other tests as they are."""
+    if isinstance(e, ast.Compare) and len(e.ops) == 1 and isinstance(e.ops[0], (ast.Gt, ast.GtE)):
+        op = ast.Lt() if isinstance(e.ops[0], ast.Gt) else ast.LtE()
+        e = ast.Compare(left=e.comparators[0], ops=[op], comparators=[e.left])
+        return unparse(ast.fix_missing_locations(e))
+    return unparse(e)
+
+
+def positive_cond(text: str, taken: bool) -> tuple:
+    """(condition text, taken) with negations moved into the truth value: `not c` / `a not in b` / `a is not b`
+    / `a != b` taken T  ==  `c` / `a in b` / `a is b` / `a == b` taken F."""
+    try:
+        e = ast.parse(text, mode="eval").body
+    except SyntaxError:
+        return text, taken
+    while True:
+        if isinstance(e, ast.UnaryOp) and isinstance(e.op, ast.Not):
+            e, taken = e.operand, not taken
+            continue
+        if isinstance(e, ast.Compare) and len(e.ops) == 1 and isinstance(e.ops[0], (ast.NotIn, ast.IsNot, ast.NotEq)):
+            pos = {ast.NotIn: ast.In, ast.IsNot: ast.Is, ast.NotEq: ast.Eq}[type(e.ops[0])]
+            e, taken = ast.Compare(left=e.left, ops=[pos()], comparators=e.comparators), not taken
+            continue
+        break
+    return unparse(ast.fix_missing_locations(e)), taken
+
+
+def emptiness_subject(test: ast.expr, fn: Optional[ast.AST] = None) -> Optional[str]:
+    """The container (expanded text) that `test` finds empty - for every spelling of "no elements":
+    `len(L) == 0`, `0 == len(L)`, `not L`, `not len(L)`, `len(L) < 1`, `len(L) <= 0`, `1 > len(L)`, and the same
+    through a local `n = len(L)`. None when the test is not such a test."""
+    t = expand_locals(test, fn) if fn is not None else test
+
+    def length_of(e):
+        if isinstance(e, ast.Call) and isinstance(e.func, ast.Name) and e.func.id == "len" and len(e.args) == 1:
+            return unparse(e.args[0])
+        return None
+
+    if isinstance(t, ast.UnaryOp) and isinstance(t.op, ast.Not):
+        inner = t.operand
+        return length_of(inner) or (unparse(inner) if isinstance(inner, (ast.Name, ast.Attribute)) else None)
+    if isinstance(t, ast.Compare) and len(t.ops) == 1:
+        a, b, op = t.left, t.comparators[0], type(t.ops[0])
+        if length_of(b) is not None and isinstance(a, ast.Constant):
+            a, b = b, a
+            op = {ast.Lt: ast.Gt, ast.Gt: ast.Lt, ast.LtE: ast.GtE, ast.GtE: ast.LtE}.get(op, op)
+        la = length_of(a)
+        if la is not None and isinstance(b, ast.Constant) and isinstance(b.value, int):
+            if (op is ast.Eq and b.value == 0) or (op is ast.Lt and b.value == 1) or (op is ast.LtE and b.value == 0):
+                return la
+    return None
+
+
 def lower_slice_calls(e: ast.AST) -> ast.AST:
     """x[slice(a, b)] -> x[a:b], x[slice(n)] -> x[:n] (in place; the builtin slice)."""
 
